@@ -281,6 +281,102 @@ fn zero_heap(alg: &str, a: &[&str], dump: bool) -> R {
                 }
             }
         }
+        // The PUBLIC multiscalar API (so that buffers allocated above the
+        // backend dispatch, e.g. when collecting owned iterators, are seen).
+        "msm_public" => {
+            use curve25519_dalek::ristretto::RistrettoPoint;
+            use curve25519_dalek::traits::MultiscalarMul;
+            arity(a, 2)?;
+            // all inputs are allocated before the window and dropped after it
+            let scalars: Vec<Scalar> = sc_list(a[0])?;
+            let points: Vec<EdwardsPoint> = ed_list(a[1])?;
+            if scalars.len() != points.len() {
+                return Err(BADREQ);
+            }
+            let rpoints: Vec<RistrettoPoint> =
+                points.iter().map(vh::ristretto_from_inner).collect();
+            let mut add = |name: &str, s: String| {
+                o.push(' ');
+                o.push_str(name);
+                o.push_str(&s);
+            };
+            let (r, s) = record(dump, "ed_owned", || {
+                EdwardsPoint::multiscalar_mul(scalars.iter().copied(), points.iter().copied())
+            });
+            black_box(r);
+            add("ed_owned", s);
+            let (r, s) = record(dump, "ed_ref", || {
+                EdwardsPoint::multiscalar_mul(&scalars, &points)
+            });
+            black_box(r);
+            add("ed_ref", s);
+            let (r, s) = record(dump, "ris_owned", || {
+                RistrettoPoint::multiscalar_mul(scalars.iter().copied(), rpoints.iter().copied())
+            });
+            black_box(r);
+            add("ris_owned", s);
+            let (r, s) = record(dump, "ris_ref", || {
+                RistrettoPoint::multiscalar_mul(&scalars, &rpoints)
+            });
+            black_box(r);
+            add("ris_ref", s);
+            drop((scalars, points, rpoints));
+        }
+        // Single-scalar public multiplications: expected to free nothing.
+        "mul_public" => {
+            arity(a, 2)?;
+            let c = ced(a[0])?;
+            let s_bytes = hx::<32>(a[1])?;
+            let p = dec_ed(&c)?;
+            let sc_ = Scalar::from_bytes_mod_order(s_bytes);
+            let u = p.to_montgomery();
+            let u_bytes = u.to_bytes();
+            let mut add = |name: &str, s: String| {
+                o.push(' ');
+                o.push_str(name);
+                o.push_str(&s);
+            };
+            let (r, s) = record(dump, "ed", || &p * &sc_);
+            black_box(r);
+            add("ed", s);
+            let (r, s) = record(dump, "ed_base", || EdwardsPoint::mul_base(&sc_));
+            black_box(r);
+            add("ed_base", s);
+            #[cfg(feature = "tables")]
+            {
+                let (r, s) = record(dump, "ed_base_table", || {
+                    curve25519_dalek::constants::ED25519_BASEPOINT_TABLE * &sc_
+                });
+                black_box(r);
+                add("ed_base_table", s);
+            }
+            let (r, s) = record(dump, "mont", || &u * &sc_);
+            black_box(r);
+            add("mont", s);
+            let (r, s) = record(dump, "x25519", || x25519_dalek::x25519(s_bytes, u_bytes));
+            black_box(r);
+            add("x25519", s);
+        }
+        // Ed25519 signing / key generation through the public API.
+        "sign" => {
+            use ed25519_dalek::{Signer, SigningKey};
+            arity(a, 2)?;
+            let seed = hx::<32>(a[0])?;
+            let msg = unhex(a[1])?;
+            let sk = SigningKey::from_bytes(&seed);
+            let (r, s) = record(dump, "eds", || sk.sign(&msg));
+            black_box(r);
+            o.push_str(" eds");
+            o.push_str(&s);
+            let ((), s) = record(dump, "eds_keygen", || {
+                let k = SigningKey::from_bytes(black_box(&seed));
+                black_box(k.verifying_key());
+                drop(k);
+            });
+            o.push_str(" eds_keygen");
+            o.push_str(&s);
+            drop((sk, msg));
+        }
         // `Scalar::batch_invert` (scratch space is a `Zeroizing<Vec<_>>`)
         "batch_invert" => {
             if a.len() != 1 && a.len() != 2 {
